@@ -54,7 +54,9 @@ const SEEDS: [&str; 16] = [
 const TOKENS: [&str; 48] = ["rule", "when", "then", "salience", "no-loop", "defmodule", "import", "export", "query", "goal:", "strategy:", "on-success:",
     "from", "stream", "over", "window", "WHERE", "AND", "OR", "NOT", "exists", "forall", "accumulate", "test", "&&", "||", "!", "==", "!=", ">=", "<=", ">", "<",
     "(", ")", "{", "}", "[", "]", ";", ",", ":", "\"", "'", "$x", "?x", "1.5", "X.y"];
-const MB: [char; 6] = ['é', '💥', '\u{85}', '\u{3000}', 'ß', '\u{a0}'];
+const MB: [char; 12] = ['é', '💥', '\u{85}', '\u{3000}', 'ß', '\u{a0}', '\u{130}', '\u{212a}', '\u{23a}', '\u{1e9e}', '\u{390}', '\u{fb01}'];
+/// characters whose lower- or upper-case mapping has a different UTF-8 length (offsets computed on a case-folded copy are wrong for the original)
+const CASELEN: [char; 6] = ['\u{130}', '\u{212a}', '\u{23a}', '\u{1e9e}', '\u{390}', '\u{fb01}'];
 
 fn mk(entry: u64, s: &str) -> Sx { Sx::l(vec![Sx::n(entry), Sx::s(s)]) }
 
@@ -98,6 +100,22 @@ pub fn gen(tier: Tier, rng: &mut Rng) -> Vec<Sx> {
     // 4. raw bytes, lossily decoded
     let n3 = if tier == Tier::Thorough { 40000 } else { 2000 };
     for _ in 0..n3 { let k = rng.range(0, 64); let b: Vec<u8> = (0..k).map(|_| rng.below(256) as u8).collect(); v.push(mk(rng.range(1, nent - 1), &String::from_utf8_lossy(&b))); }
+    // 4b. case-length-changing characters at token boundaries, on every entry point: (A) directly before a blank
+    //     (a shrinking character just before a keyword), (B) somewhere before a blank-delimited token with a
+    //     multi-byte character directly after that token (a growing character before a keyword, multi-byte text after it)
+    for s in SEEDS {
+        let cs: Vec<char> = s.chars().collect();
+        let spaces: Vec<usize> = cs.iter().enumerate().filter(|(_, c)| **c == ' ').map(|(i, _)| i).collect();
+        for (n, &k) in spaces.iter().enumerate() {
+            let c = *rng.pick(&CASELEN);
+            let mut a = cs.clone(); a.insert(k, c); if rng.chance(1, 3) { a.insert(k, c); }
+            let mut b = cs.clone();
+            if let Some(&k2) = spaces.get(n + 1) { b.insert(k2 + 1, *rng.pick(&MB)); } else { b.push(*rng.pick(&MB)); }
+            let i = rng.below(k as u64 + 1) as usize; b.insert(i, c); if rng.chance(1, 2) { b.insert(i, c); b.insert(i, c); }
+            let (ta, tb): (String, String) = (a.into_iter().collect(), b.into_iter().collect());
+            for e in 1..nent { v.push(mk(e, &ta)); v.push(mk(e, &tb)); }
+        }
+    }
     // 5. deep prefix chains and nesting up to 4 KiB
     for e in 1..nent { for (p, q) in [("!", ""), ("(", ""), ("(", ")"), ("[", "]"), ("{", "}"), ("NOT ", ""), ("-", ""), ("!(", ")"), ("exists(", ")")] {
         for n in [33usize, 500, 4000 / (p.len() + q.len()).max(1)] { let s = format!("{}X.a == 1{}", p.repeat(n), q.repeat(n)); v.push(mk(e, &s[..s.len().min(4096)])); } } }
